@@ -162,7 +162,8 @@ func checkLHS(
 	stmt *ast.AssignStmt,
 	expr ast.Expr,
 ) *ImmutableViolation {
-	switch e := expr.(type) {
+	// Parentheses do not change what is assigned: (x.f) = v, (*r) = v
+	switch e := ast.Unparen(expr).(type) {
 	case *ast.SelectorExpr:
 		return checkFieldAssignment(ctx, stmt, e)
 	case *ast.IndexExpr:
@@ -232,7 +233,7 @@ func checkIndexAssignment(
 	stmt *ast.AssignStmt,
 	index *ast.IndexExpr,
 ) *ImmutableViolation {
-	selector, ok := index.X.(*ast.SelectorExpr)
+	selector, ok := ast.Unparen(index.X).(*ast.SelectorExpr)
 	if !ok {
 		return nil
 	}
@@ -289,8 +290,11 @@ func checkIncDec(
 ) []ImmutableViolation {
 	var violations []ImmutableViolation
 
+	// Parentheses do not change what is incremented: (x.field)++, (*r)--
+	operand := ast.Unparen(node.X)
+
 	// Check for field increment/decrement: x.field++
-	if selector, ok := node.X.(*ast.SelectorExpr); ok {
+	if selector, ok := operand.(*ast.SelectorExpr); ok {
 		violation := checkFieldIncDec(ctx, node, selector)
 		if violation != nil {
 			violations = append(violations, *violation)
@@ -299,7 +303,7 @@ func checkIncDec(
 	}
 
 	// Check for receiver increment/decrement: *receiver++
-	if star, ok := node.X.(*ast.StarExpr); ok {
+	if star, ok := operand.(*ast.StarExpr); ok {
 		violation := checkReceiverIncDec(ctx, node, star)
 		if violation != nil {
 			violations = append(violations, *violation)
@@ -377,7 +381,7 @@ func checkReceiverIncDec(
 	}
 
 	// Check if the increment/decrement is on the receiver: *receiver++
-	ident, ok := star.X.(*ast.Ident)
+	ident, ok := ast.Unparen(star.X).(*ast.Ident)
 	if !ok {
 		return nil
 	}
@@ -433,7 +437,7 @@ func checkCompoundLHS(
 	expr ast.Expr,
 	tok token.Token,
 ) *ImmutableViolation {
-	selector, ok := expr.(*ast.SelectorExpr)
+	selector, ok := ast.Unparen(expr).(*ast.SelectorExpr)
 	if !ok {
 		return nil
 	}
@@ -498,7 +502,7 @@ func checkReceiverReassignment(
 	}
 
 	// Check if the assignment is to the receiver: *r = value
-	ident, ok := star.X.(*ast.Ident)
+	ident, ok := ast.Unparen(star.X).(*ast.Ident)
 	if !ok {
 		return nil
 	}
